@@ -162,7 +162,10 @@ def _gen_histories(ctx, binp, pid):
                 for _ in range(3 if pid == "C12" else 1):
                     hs.append(l2gen.lifecycle_history(w, rnd, nops + 15, cold_bias=True))
             rc = l2gen.valid_configs(w, rnd) if pid in ("C01", "C03", "C04", "C05", "C09", "C12") else None
-            hs.append(l2gen.lifecycle_history(w, rnd, nops, disorder=disorder, fuzz=0.6 if pid == "C14" else 0.0, reconf_cfgs=rc))
+            if pid == "C12" and j % 2 == 0:
+                rc = l2gen.pin_configs(w, rnd)          # pinning switches only (and back)
+            hs.append(l2gen.lifecycle_history(w, rnd, nops, disorder=disorder, fuzz=0.6 if pid == "C14" else 0.0, reconf_cfgs=rc,
+                                              reconf_bias=(pid == "C12" and j % 2 == 0)))
     return hs
 
 
